@@ -26,9 +26,46 @@ def state_fingerprint():
     return {k: str(v) for k, v in fp.items()}
 
 
+def analyse_cli(job):
+    """one invocation of polar.main over several benchmark files (as `polar.py a.prob b.prob --goals ...`); returns the printed
+    goal lines per benchmark"""
+    import os, re, tempfile
+    from polarmon import polar_api as P
+    d = tempfile.mkdtemp(prefix="c20cli")
+    paths = []
+    try:
+        for k, text in enumerate(job["cli"]["files"]):
+            pth = os.path.join(d, f"f{k}.prob")
+            with open(pth, "w") as f:
+                f.write(text)
+            paths.append(pth)
+        argv = paths + ["--goals"] + job["cli"]["goals"]
+        if job["cli"].get("at_n") is not None:
+            argv += ["--at_n", str(job["cli"]["at_n"])]
+        try:
+            out = P.run_cli(argv)
+        except SystemExit:
+            return {"id": job.get("id"), "cli_blocks": "SystemExit"}
+        except Exception as e:
+            return {"id": job.get("id"), "cli_blocks": "error:" + type(e).__name__}
+        finally:
+            P.reset_settings()
+        out = re.sub(r"\x1b\[[0-9;]*m", "", out)
+        blocks = out.split("- Analysis Result -")[1:]
+        res = []
+        for b in blocks:
+            res.append([l.strip() for l in b.splitlines() if re.match(r"^(E\(|[a-z_]\w* = |[a-z_]\w* \| n=)", l.strip())])
+        return {"id": job.get("id"), "cli_blocks": res}
+    finally:
+        import shutil
+        shutil.rmtree(d, ignore_errors=True)
+
+
 def analyse(job):
     from polarmon import polar_api as P
     from polarmon.checks import common as K
+    if job.get("cli"):
+        return analyse_cli(job)
     out = {"id": job.get("id"), "goals": {}, "types": None, "refusal": None}
     P.set_settings(**job.get("settings", {}))
     values = {k: Fraction(v[0], v[1]) for k, v in job.get("values", {}).items()}
@@ -49,10 +86,15 @@ def analyse(job):
             lst = []
             for c, f in (sols or []):
                 c = sympy.sympify(c)
-                c = sympy.factor(c.xreplace({x: 1 for x in c.free_symbols if x.name.startswith("_")}))
-                if str(c).startswith("-"):
-                    c = sympy.factor(-c)
-                lst.append(str(c))
+                c = c.xreplace({x: 1 for x in c.free_symbols if x.name.startswith("_")})
+                # a solution family is only determined up to a constant factor: normalise to the primitive part with positive
+                # leading coefficient
+                c = sympy.expand(c)
+                if c != 0:
+                    c = sympy.Poly(c, *sorted(c.free_symbols, key=str)).primitive()[1].as_expr()
+                    if sympy.Poly(c, *sorted(c.free_symbols, key=str)).LC() < 0:
+                        c = -c
+                lst.append(str(sympy.factor(c)))
             out["synth"] = lst
         except Exception as e:
             out["synth"] = "error:" + type(e).__name__
@@ -85,6 +127,35 @@ def analyse(job):
             except P.NotANumber as e:
                 vals.append("nan")
         out["goals"][name] = {"values": vals, "is_exact": bool(is_exact)}
+    if job.get("after_loop"):
+        # the conditional sequence 'moment given termination' (cli.common), the quantity behind --after_loop
+        try:
+            from cli.common import get_moment_given_termination
+            from cli import ArgumentParser
+            from symengine.lib.symengine_wrapper import sympify as se
+            args = ArgumentParser().get_defaults()
+            solvers = {}
+            term = {}
+            for gi in order:
+                g = goals[gi]
+                name = P.monom_str(g)
+                try:
+                    seq, _ = get_moment_given_termination(se(name), solvers, rb, args, program)
+                except Exception as e:
+                    term[name] = {"error": type(e).__name__}
+                    continue
+                vals = []
+                for n in range(N + 1):
+                    try:
+                        vals.append(P.val_str(P.eval_at(seq, n, values)))
+                    except P.Leftover as e:
+                        vals.append("leftover")
+                    except P.NotANumber:
+                        vals.append("nan")
+                term[name] = vals
+            out["termination"] = term
+        except Exception as e:
+            out["termination"] = "error:" + type(e).__name__
     if job.get("invariants"):
         try:
             import sympy
